@@ -58,7 +58,7 @@ def gen_plan(rng, tier, run):
             "opts": common.gen_selection(rng),
             "fseed": rng.randrange(1 << 30),
             "enum": "full" if (tier == "thorough" and rng.random() < 0.12) else "reduced",
-            "double": (tier == "thorough" and rng.random() < 0.3),
+            "double": (tier == "thorough" and rng.random() < 0.3) or (tier == "quick" and rng.random() < 0.08),
             "files": [], "plugins": {}, "bmc": rng.random() < 0.15,
             # the process may have been started with stdout closed (`peltool ... >&-`)
             "stdout_closed": mode == "file" and rng.random() < 0.08}
